@@ -36,6 +36,7 @@ def main():
     suite = True
     dest = "tests"
     pre = ""
+    dflags = ""
     args = sys.argv[4:]
     i = 0
     while i < len(args):
@@ -45,6 +46,8 @@ def main():
             suite = False; i += 1
         elif args[i] == "--demo-dest":
             dest = args[i + 1]; i += 2
+        elif args[i] == "--demo-flags":
+            dflags = args[i + 1] + " "; i += 2
         elif args[i] == "--pre":
             pre = args[i + 1] + " >/dev/null 2>&1; "; i += 2
         else:
@@ -70,7 +73,7 @@ def main():
             os.makedirs(os.path.join(wt, dest), exist_ok=True)
             shutil.copy(os.path.join(src, demo_rs[0]), os.path.join(wt, dest, tname + ".rs"))
             crate_dir = os.path.dirname(dest) or "."
-            run_demo = "cd %s && %scargo test --offline --test %s 2>&1 | tail -15" % (os.path.join(wt, crate_dir), pre, tname)
+            run_demo = "cd %s && %scargo test --offline %s--test %s 2>&1 | tail -15" % (os.path.join(wt, crate_dir), pre, dflags, tname)
         if run_demo:
             rc, out = sh(run_demo)
             ok0 = "test result: ok" in out and "FAILED" not in out
